@@ -22,7 +22,7 @@ type extSpec struct {
 // c11DocTrigger is the document-level form of the statement's side condition: true when the document contains a
 // character (sequence) the extension's syntax needs, i.e. when the property says nothing about it.
 func c11DocTrigger(ext string, doc []byte) bool {
-	switch ext {
+	switch strings.TrimSuffix(ext, "-opt") {
 	case "strike":
 		return bytes.IndexByte(doc, '~') >= 0
 	case "table":
@@ -85,6 +85,17 @@ var c11Exts = []extSpec{
 	}, "x:table,strike,tasklist,deflist,footnote,typographer"},
 }
 
+// the same extensions built through their option-bearing constructors with every option set (incl. wrapped html options):
+// an extension is an extension however it was constructed
+var c11OptExts = []extSpec{
+	{"footnote-opt", func(t string) bool { return strings.Contains(t, "[^") || t == "[" || t == "^" }, ""},
+	{"table-opt", hasAny("-"), ""},
+	{"linkify-opt", func(t string) bool {
+		return strings.ContainsAny(t, ":@") || strings.Contains(strings.ToLower(t), "www.") || t == "w" || t == "."
+	}, ""},
+	{"typographer-opt", hasAny("'\"-.<>"), ""},
+}
+
 var c11Alpha = core.Union(core.ABlock, core.AInline, core.AExt, []string{"'", ".", "\t", "^", "{", "}", "go/x", "wwx"})
 
 // c11Pollute builds and uses, once per worker, differently configured instances of the same extensions (option-bearing
@@ -145,6 +156,20 @@ func runC11(r *core.Run) {
 		}
 	}
 	for _, e := range c11Exts {
+		c11Structured(r, e.name, core.MustCfg("core"), core.MustCfg("x:"+e.name))
+	}
+	for _, e := range c11OptExts {
+		toks := core.Without(c11Alpha, e.trigger)
+		for _, bn := range []string{"core", "core+unsafe+xhtml"} {
+			base, with := core.MustCfg(bn), core.MustCfg("x:"+e.name+strings.TrimPrefix(bn, "core"))
+			wordsSub(r, fmt.Sprintf("%s/base=%s", e.name, bn),
+				fmt.Sprintf("trigger-free words: R under %s (the extension through its option-bearing constructor with every option set, wrapped html options included) == R under %s; distinct = output digest", with, bn),
+				toks, n, func(s *core.Sub, w int) func([]byte) uint64 {
+					b, x := core.NewConv(base), core.NewConv(with)
+					var tmp []byte
+					return func(word []byte) uint64 { return c11Case(s, b, x, word, e.name, &tmp) }
+				})
+		}
 		c11Structured(r, e.name, core.MustCfg("core"), core.MustCfg("x:"+e.name))
 	}
 	for _, cj := range []string{"cjk-simple", "cjk-css3", "cjk-esc", "cjk"} {
